@@ -44,6 +44,11 @@ func Load(opts *LoaderOptions) (*types.Project, error) {
 	if err != nil {
 		return nil, err
 	}
+	if mergedProject.LogLength == 0 {
+		// the default is applied once, after the merge: a file that does not mention log_length
+		// must not reset the value of an earlier file
+		mergedProject.LogLength = defaultLogLength
+	}
 	mergedProject.FileNames = opts.FileNames
 	mergedProject.EnvFileNames = opts.EnvFileNames
 	mergedProject.IsTuiDisabled = opts.isTuiDisabled || mergedProject.IsTuiDisabled
@@ -144,9 +149,7 @@ func loadProjectFromFile(inputFile string, opts *LoaderOptions) (*types.Project,
 		return os.Getenv(name)
 	})
 
-	project := &types.Project{
-		LogLength: defaultLogLength,
-	}
+	project := &types.Project{}
 	err = yaml.Unmarshal([]byte(temp), project)
 	if err != nil {
 		if opts.IsInternalLoader {
@@ -157,9 +160,7 @@ func loadProjectFromFile(inputFile string, opts *LoaderOptions) (*types.Project,
 	if project.DisableEnvExpansion {
 		// decode the raw text into a fresh project: on top of the expanded one every map entry
 		// (process, env_cmds, vars) whose key was changed by the expansion would survive
-		project = &types.Project{
-			LogLength: defaultLogLength,
-		}
+		project = &types.Project{}
 		err = yaml.Unmarshal(yamlFile, project)
 		if err != nil {
 			if opts.IsInternalLoader {
